@@ -973,7 +973,7 @@ def build_cases(ctx):
         gen["seed"] = rng.randrange(1, 2 ** 31 - 1)
         cases.append({"gen": gen, "ops": ops if ops is not None else gen_ops(rng, gen, quick, full)})
 
-    reps = 1 if quick else 6
+    reps = 1 if quick else 60
     for _ in range(reps):
         for kind in GENERIC_KINDS:
             for n in SMALL_SIZES:
@@ -1229,7 +1229,7 @@ def check_cases(ctx, cases, arrays, out, errors):
                     ident = x - ca + cb
                     is_ident = float(np.abs(y - ident).max()) <= 8 * EPS * (radall + off) and math.sqrt(msd) + tol < dev
                     ctx.count({"gen": gen, "op": op, "f": f}, nontrivial=True, bucket=bucket)
-                    if ok_opt:
+                    if ok_opt and rc >= ROTCOND_MIN:
                         track("superpose_dev", abs(dev - math.sqrt(msd)) / tol)
                     track("superpose_rigid", float(np.abs(d0 - d1).max()) / tol_r)
                     if not ok_rig:
